@@ -4,6 +4,7 @@ package cl
 
 import (
 	"math"
+	"unicode"
 
 	"github.com/ohler55/ojg/sen"
 	"github.com/ohler55/slip"
@@ -57,6 +58,19 @@ func sxhash(obj slip.Object) (h uint64) {
 	case slip.Complex:
 		if h = hashFloat(real(to)); imag(to) != 0.0 {
 			h = h*31 + hashFloat(imag(to))
+		}
+	case slip.String:
+		// Strings are equal when they are the same under Unicode simple case
+		// folding, so every character is hashed by the least member of its
+		// folding orbit.
+		for _, r := range string(to) {
+			least := r
+			for f := unicode.SimpleFold(r); f != r; f = unicode.SimpleFold(f) {
+				if f < least {
+					least = f
+				}
+			}
+			h = h*31 + uint64(least)
 		}
 	case slip.List:
 		for _, v := range to {
